@@ -1,4 +1,5 @@
 import Ufo2ftModel.Model.C09
+import Ufo2ftModel.Model.C09Shape
 import Ufo2ftModel.Spec.Render
 /-!
 The variable-font clause of C13 (one axis).
@@ -18,6 +19,20 @@ the `InterpolatedLayer`s).
 -/
 namespace Ufo2ft.C13
 open Ufo2ft Ufo2ft.C09
+
+/-- what interpolation leaves alone: name, point types, component bases and 2×2 parts, anchor names.
+    Two glyphs with the same `sh` are *alike* (compatible masters whose component matrices differ in the offsets only) -/
+structure GShape where
+  name : String
+  contours : List CShape
+  comps : List (String × (Q × Q × Q × Q))
+  anchors : List String
+  deriving DecidableEq
+
+def ksh (k : Comp) : String × (Q × Q × Q × Q) := (k.base, k.t.linear)
+
+def sh (g : Glyph) : GShape :=
+  ⟨g.name, g.contours.map contourShape, g.comps.map ksh, g.anchors.map (fun a => a.name)⟩
 
 /-- glyph `n` of the family at location `t` -/
 def glyphAt (I : Inst) (ms : Masters) (n : String) (t : Q) : Option Glyph :=
